@@ -12,7 +12,7 @@ RULE = ('histories = every valid sequence up to depth D over the alphabet {V(mod
         'view j, T(j): tabulate through view j} for 4 files (pair, EAM, Finnis-Sinclair, ADP), each executed on fresh real objects in lock-step '
         'with the reference (text-level deletion of entries, parsed and tabulated unfiltered); plus every file x filter x compatible target '
         'through potable --include-species/--exclude-species; states = distinct reference states (tuple of live views + which were read)')
-RULE += '; nested views (a view of a view), caller-owned containers {one list re-used, tuple, one-shot iterator}; the files relabelled with a prefix chain (H, He, Hes), charged labels (Ce3+, Ce4+) and case variants (Co, CO); entries with a modifier in a later range; a species filter combined with one command-line edit (-e / -r / -a)'
+RULE += '; nested views (a view of a view), caller-owned containers {one list re-used, tuple, one-shot iterator}; the files relabelled with a prefix chain (H, He, Hes), charged labels (Ce3+, Ce4+) and case variants (Co, CO); entries with a modifier in a later range; a species filter combined with one command-line edit (-e / -r / -a); the constructor called positionally; histories with M(j) (the caller empties / truncates the lists view j returned) and P (one [Pair] entry of the wrapped parser replaced through raw_config_parser between reads)'
 ASSUMPTIONS = [
     'the hand-edited file is obtained by deleting [Pair], [EAM-Embed] and [EAM-Density] entries only (the statement lists pair, embedding and density entries)',
     'the edited file is parsed and tabulated by the same implementation without filter: a relational oracle, no expected numbers',
@@ -99,6 +99,8 @@ def valid(prefix):
             if op[1] >= nv or nv >= 3:
                 return False
             nv += 1
+        elif op[0] == 'P':
+            pass
         elif op[1] >= nv:
             return False
     return prefix[0][0] == 'V'
@@ -134,6 +136,17 @@ def cases(tier):
                 out.append(dict(kind='history', file=fname, ops=h, container='both-kwargs'))
                 out.append(dict(kind='history', file=fname, ops=h, container='tuple'))
                 out.append(dict(kind='history', file=fname, ops=h, container='iterator'))
+                out.append(dict(kind='history', file=fname, ops=h, container='positional'))
+    # the caller's side of the interface: M(j) = the caller empties / re-orders the lists view j handed out earlier; P = the wrapped parser is edited
+    # (one [Pair] entry replaced through raw_config_parser, as a parameter scan does) - later reads and tabulations follow the file as it is now
+    m3 = [i for i, (m, sp) in enumerate(FILTERS) if (m, sp) in (('include', ['A', 'B']), ('exclude', ['A']), ('exclude', ['X']))]
+    malpha = [['V', i] for i in m3] + [['R', j] for j in range(2)] + [['T', j] for j in range(2)] + [['M', j] for j in range(2)] + [['P']]
+    mh = [h for h in hist.histories(malpha, 4 if tier == 'quick' else 5, valid)
+          if any(op[0] in 'MP' for op in h) and h[-1][0] in 'RT' and sum(1 for op in h if op[0] == 'V') <= 2 and sum(1 for op in h if op[0] == 'P') <= 1
+          and all(op[0] != 'M' or any(q[0] == 'R' and q[1] == op[1] for q in h[:i]) for i, op in enumerate(h))]
+    for fname in ('pair', 'eam', 'fs', 'adp'):
+        for h in mh:
+            out.append(dict(kind='history', file=fname, ops=h, container='fresh'))
     short = [h for h in hs if len(h) <= 3 and any(op[0] in 'RT' for op in h)]
     extra = ['%s_%s' % (b, t) for t in LABEL_MAPS for b in ('pair', 'eam', 'fs')]
     for fname in extra:
@@ -178,13 +191,19 @@ def tabulate(cp):
         return ('config-error', type(e).__name__)
 
 
-def reference(fname, fi):
-    """fi: a filter index or a tuple of filter indices applied one after the other (nested views)"""
+P_VALUE = '>=0 as.polynomial 7.5 -0.25 0.125'
+
+
+def reference(fname, fi, scanned=False):
+    """fi: a filter index or a tuple of filter indices applied one after the other (nested views); scanned: the first [Pair] entry was replaced"""
     chain = fi if isinstance(fi, tuple) else (fi,)
-    key = (fname, chain)
+    key = (fname, chain, scanned)
     if key not in _refcache:
         from atsim.potentials.config import ConfigParser
         edited = get_file(fname)
+        if scanned:
+            edited = edited.copy()
+            edited.section('Pair')[1][0][1] = P_VALUE
         for f_ in chain:
             mode, S = FILTERS[f_]
             edited = filter_species(edited, species_of(fname, S), mode == 'exclude')
@@ -204,10 +223,23 @@ def run_history(case):
     read = []
     trans = 0
     shared = []
+    handed = {}
+    scanned = False
     kind = case.get('container', 'fresh')
     for step, op in enumerate(case['ops']):
         trans += 1
-        if op[0] in 'VN':
+        if op[0] == 'P':
+            base.raw_config_parser.set('Pair', get_file(fname).section('Pair')[1][0][0], P_VALUE)
+            scanned = True
+        elif op[0] == 'M':
+            for k, lst in enumerate(handed.get(op[1], [])):
+                if isinstance(lst, list):
+                    if k % 2:
+                        lst.reverse()
+                        del lst[1:]
+                    else:
+                        del lst[:]
+        elif op[0] in 'VN':
             mode, S = FILTERS[op[-1]]
             S = species_of(fname, S)
             if kind == 'shared':
@@ -220,7 +252,10 @@ def run_history(case):
             else:
                 cont = list(S)
             parent = base if op[0] == 'V' else views[op[1]]
-            if kind == 'both-kwargs' and S:
+            if kind == 'positional':
+                # the documented signature FilteredConfigParser(config_parser, exclude=None, include=None) used without keywords
+                views.append(FilteredConfigParser(parent, cont) if mode == 'exclude' else FilteredConfigParser(parent, None, cont))
+            elif kind == 'both-kwargs' and S:
                 # both keyword arguments given, the unused one as an empty list (wrappers that pass `x or []`; the class's historical signature)
                 views.append(FilteredConfigParser(parent, **{mode: cont, ('exclude' if mode == 'include' else 'include'): []}))
             else:
@@ -229,12 +264,13 @@ def run_history(case):
             read.append(0)
         else:
             j = op[1]
-            lists, tabref, _e = reference(fname, vf[j])
+            lists, tabref, _e = reference(fname, vf[j], scanned)
             mode, S = 'chain', [FILTERS[x] for x in vf[j]]
             read[j] = 1
             if op[0] == 'R':
                 for a in ATTRS[base_of(fname)]:
                     got = getattr(views[j], a)
+                    handed.setdefault(j, []).append(got)
                     if got != lists[a]:
                         others = [FILTERS[x] for i, x in enumerate(vf) if i != j]
                         sig = 'view-differs-from-edited-file' if step == 1 or len(vf) == 1 else 'views-interfere'
@@ -247,7 +283,7 @@ def run_history(case):
                     sig = 'tabulation-differs-from-edited-file' if len(vf) == 1 else 'tabulation-views-interfere'
                     viol.append(dict(sig=sig, msg='file %s, history %s: tabulating through view %s=%r gives %s, the hand-edited file gives %s'
                                      % (fname, describe(case['ops']), mode, S, brief(got), brief(tabref)), detail={}))
-        states.append('%s|%s|%s|%s' % (fname, ','.join('.'.join(map(str, c)) for c in vf), ''.join(map(str, read)), kind))
+        states.append('%s|%s|%s|%s%s' % (fname, ','.join('.'.join(map(str, c)) for c in vf), ''.join(map(str, read)), kind, '|scanned' if scanned else ''))
         if viol:
             break
     return dict(outcome='ok:history:%d' % len(case['ops']) if not viol else 'violation', nontrivial=len(vf) >= 2, evals=trans,
@@ -268,6 +304,10 @@ def describe(ops):
             out.append('V(%s=%r)' % FILTERS[op[1]])
         elif op[0] == 'N':
             out.append('N(view %d, %s=%r)' % ((op[1],) + FILTERS[op[2]]))
+        elif op[0] == 'P':
+            out.append('P(replace first [Pair] entry in the wrapped parser)')
+        elif op[0] == 'M':
+            out.append('M(caller empties the lists view %d returned)' % op[1])
         else:
             out.append('%s(view %d)' % (op[0], op[1]))
     return ' '.join(out)
